@@ -184,6 +184,14 @@ pub fn compare(c: &Case, full: &ObsVoronoi, kappa: &[(f64, f64, f64)], mask: &[b
                 None
             };
             if let Some((s, u)) = pair {
+                // (the same rounding slack as for the presence test above: a sliver that the
+                // lower-index side integrates to a small positive area may come out as rounding
+                // noise <= 0 from the selected side, which is then not stored)
+                let slack = (kappa[s].1 + kappa[u].1) * crate::cellinfo::face_perimeter_bound(c.d(), kappa[s].2.min(kappa[u].2));
+                if f.area <= thr + slack {
+                    cs.count("adjacencies_below_rounding_slack", 1);
+                    continue;
+                }
                 if !seen.contains_key(&(s, (Some(u), None, 0))) {
                     return Err(format!("adjacency selected {s} / unselected {u} (area {:e} in the full build) is not stored with the selected cell on the left", f.area));
                 }
